@@ -7,9 +7,13 @@ import (
 	"os"
 	"strings"
 
+	"github.com/corestario/kyber"
 	"github.com/corestario/kyber/encrypt/ecies"
 	"github.com/corestario/kyber/pairing/bls12381"
+	"github.com/corestario/kyber/share"
 	dkgPedersen "github.com/corestario/kyber/share/dkg/pedersen"
+	vss "github.com/corestario/kyber/share/vss/pedersen"
+	"lukechampine.com/frand"
 
 	"github.com/lidofinance/dc4bc/airgapped"
 	"github.com/lidofinance/dc4bc/client/types"
@@ -74,6 +78,72 @@ func otherPolynomial(r *kit.Run, w *world.World, round string, t, D, V int) ([]b
 	return enc, commits
 }
 
+// innerDealMutations: field-level edits of the PLAINTEXT vss deal before the dealer encrypts and
+// signs it (what a dealer running modified software sends: everything around the deal is valid).
+// (a deal without its SessionID field is not in the list: kyber recomputes the session id from the
+// commitments and never reads the field, so such a deal is a well-formed deal in effect)
+var innerDealMutations = map[string]func(d *vss.Deal){
+	"no-share": func(d *vss.Deal) { d.SecShare = nil },
+	"share-without-value": func(d *vss.Deal) {
+		if d.SecShare != nil {
+			d.SecShare = &share.PriShare{I: d.SecShare.I, V: nil}
+		}
+	},
+	"threshold-zero": func(d *vss.Deal) { d.T = 0 },
+	"threshold-huge": func(d *vss.Deal) { d.T = 1 << 30 },
+	"no-commitments": func(d *vss.Deal) { d.Commitments = nil },
+	"share-index-huge": func(d *vss.Deal) {
+		if d.SecShare != nil {
+			d.SecShare = &share.PriShare{I: 1 << 20, V: d.SecShare.V}
+		}
+	},
+}
+
+// innerMutatedDeal builds, with kyber itself and the dealer's real long-term key, a complete
+// dealer run whose deal for V has one plaintext field edited; returns the encrypted deal for V
+// (ECIES to V, as the machine sends it) and the commitments that dealer run broadcasts.
+func innerMutatedDeal(r *kit.Run, w *world.World, t, D, V int, mutation string) (deal []byte, commits []byte, err error) {
+	defer func() {
+		if x := recover(); x != nil {
+			err = fmt.Errorf("kyber refuses to build the deal: %v", x)
+		}
+	}()
+	suite := bls12381.NewBLS12381Suite(nil)
+	var pubs []kyber.Point
+	for _, a := range w.Airs {
+		pubs = append(pubs, a.M.GetPubKey())
+	}
+	seed := sha256.Sum256([]byte("dealer with an edited deal"))
+	gen, gerr := dkgPedersen.NewDistKeyGenerator(suite, w.Airs[D].M.VerifSecKey(), pubs, t, frand.NewCustom(seed[:], 32, 20))
+	if gerr != nil {
+		return nil, nil, gerr
+	}
+	plain, perr := gen.GetDealer().PlaintextDeal(V)
+	if perr != nil {
+		return nil, nil, perr
+	}
+	innerDealMutations[mutation](plain)
+	deals, derr := gen.Deals()
+	if derr != nil {
+		return nil, nil, derr
+	}
+	bz, merr := json.Marshal(deals[V])
+	if merr != nil {
+		return nil, nil, merr
+	}
+	enc, eerr := ecies.Encrypt(suite, w.Airs[V].M.GetPubKey(), bz, suite.Hash)
+	if eerr != nil {
+		return nil, nil, eerr
+	}
+	var pts [][]byte
+	for _, c := range gen.GetDealer().Commits() {
+		cb, _ := c.MarshalBinary()
+		pts = append(pts, cb)
+	}
+	commits, _ = json.Marshal(pts)
+	return enc, commits, nil
+}
+
 type deviation struct {
 	Kind    string
 	Phase   fsm.State // operation type of the dealer that is answered dishonestly
@@ -117,6 +187,9 @@ func c11(tier string, args []string) int {
 		// victim a share of that polynomial: the deal contradicts the commitments it BROADCAST
 		{"commitments-told-privately", dpf.StateDkgCommitsAwaitConfirmations, onlyV},
 	}
+	for _, m := range world.SortedKeys(innerDealMutations) {
+		devs = append(devs, deviation{"inner-deal-" + m, dpf.StateDkgCommitsAwaitConfirmations, onlyV})
+	}
 	evals, distinct := 0, 0
 	for _, nt := range cfgs {
 		for D := 0; D < nt.n; D++ {
@@ -153,8 +226,44 @@ func runC11(r *kit.Run, n, t, D, V int, dv deviation, allOrders bool) {
 	label := fmt.Sprintf("n=%d t=%d dealer=%d victim=%d %s", n, t, D, V, dv.Kind)
 	var run *DKGRun
 	applied := false
+	unbuildable := false
 	deviate := func(node int, op *types.Operation) func(res *types.Operation) {
 		if node != D {
+			return nil
+		}
+		if strings.HasPrefix(dv.Kind, "inner-deal-") {
+			w := run.W
+			mutation := strings.TrimPrefix(dv.Kind, "inner-deal-")
+			switch fsm.State(op.Type) {
+			case dpf.StateDkgCommitsAwaitConfirmations:
+				return func(res *types.Operation) {
+					_, commits, err := innerMutatedDeal(r, w, t, D, V, mutation)
+					if err != nil {
+						return // kyber cannot even produce such a deal: nothing to send
+					}
+					var req requests.DKGProposalCommitConfirmationRequest
+					_ = json.Unmarshal(res.ResultMsgs[0].Data, &req)
+					req.Commit = commits
+					res.ResultMsgs[0].Data, _ = json.Marshal(req)
+				}
+			case dpf.StateDkgDealsAwaitConfirmations:
+				return func(res *types.Operation) {
+					deal, _, err := innerMutatedDeal(r, w, t, D, V, mutation)
+					if err != nil {
+						unbuildable = true
+						return
+					}
+					for i := range res.ResultMsgs {
+						if res.ResultMsgs[i].RecipientAddr == w.Nodes[V].Name {
+							var req requests.DKGProposalDealConfirmationRequest
+							_ = json.Unmarshal(res.ResultMsgs[i].Data, &req)
+							req.Deal = deal
+							res.ResultMsgs[i].Data, _ = json.Marshal(req)
+							applied = true
+						}
+					}
+				}
+			}
 			return nil
 		}
 		if dv.Kind == "commitments-told-privately" {
@@ -273,6 +382,9 @@ func runC11(r *kit.Run, n, t, D, V int, dv deviation, allOrders bool) {
 			}
 		}
 	}, func(s *worldx.State) {
+		if unbuildable {
+			return // kyber itself cannot encode this edit: the honest ceremony ran
+		}
 		if !applied {
 			r.Infra("%s: the deviation was never applied", label)
 		}
